@@ -69,7 +69,8 @@ def parseOp (ts : List String) : Option Op :=
 def renderDump (kv : KV) : String :=
   renderList (kv.map (fun e => match e.2 with
     | .obj o => s!"{escL e.1}=o;{renderObj o}"
-    | .ref r => s!"{escL e.1}=r;{escL r}"))
+    | .ref r => s!"{escL e.1}=r;{escL r}"
+    | .bucket => s!"{escL e.1}=b"))
 
 def renderGet : Except Err Obj → String
   | .ok o => s!"ok {renderObj o}"
@@ -98,6 +99,7 @@ structure St where
   maxStored : Nat := 0
   interesting : Bool := false
   branches : List String := []
+  foreign : Bool := false       -- a nested bucket was created by a foreign write: the abstract-map spec no longer applies, the tie does
   mm : Option String := none    -- first model/implementation disagreement (the scan goes on: a later SPECFAIL wins)
 
 def addBr (st : St) (b : String) : St := if st.branches.contains b then st else { st with branches := b :: st.branches }
@@ -173,7 +175,7 @@ def judge (_id : String) (lines : Array String) : Verdict := Id.run do
       let model := renderGet (get st.cfg st.kv id)
       let sp := match absGet st.m id with | some o => s!"ok {renderObj o}" | none => "err:missing"
       st := addBr st (if (absGet st.m id).isSome then "get-stored" else "get-absent")
-      if obsS != sp then return classify st "get-returns-last-stored" s!"get {esc i}: spec {sp} observed {obsS}" (obsS == model) false
+      if obsS != sp && !st.foreign then return classify st "get-returns-last-stored" s!"get {esc i}: spec {sp} observed {obsS}" (obsS == model) false
       if obsS != model && st.mm.isNone then st := { st with mm := some s!"get {esc i}: model {model} observed {obsS}" }
     | ["list", ix, pat, off, lim, rev] =>
       let some ix := unesc ix | return .badop l
@@ -190,7 +192,8 @@ def judge (_id : String) (lines : Array String) : Verdict := Id.run do
       let sp := s!"ok {renderList (spL.map renderObj)}"
       let full := pat == [] && off == 0 && (lim < 0 || lim ≥ 1000)
       let clause := if full then "index-lists-exactly-stored-in-order" else "page-is-slice-of-listing"
-      if obsS != sp then
+      if st.foreign && obsS != sp then st := addBr st "foreign-bucket-visible-in-list"
+      if obsS != sp && !st.foreign then
         -- order-only deviation: the low-separator predicate holds and the page computed from the listing in
         -- composite-key order is what was observed (= model)
         let orderOnly := lowSepDev i st.m
@@ -204,6 +207,14 @@ def judge (_id : String) (lines : Array String) : Verdict := Id.run do
       if obsS != model && st.mm.isNone then
         st := { st with mm := some s!"dump: model {model} observed {obsS}" }
       st := { st with prevDump := some obsS, dumpValid := true }
+    | ["mkbucket", k] =>
+      let some k := unesc k | return .badop l
+      let (kv', r) := mkBucket st.kv (s2l k)
+      if obsS != renderErr r && st.mm.isNone then
+        st := { st with mm := some s!"mkbucket {esc k}: model {renderErr r} observed {obsS}" }
+      if r == none then
+        st := addBr { st with kv := kv', foreign := true, dumpValid := false } "foreign-bucket-created"
+      else st := addBr st "foreign-bucket-key-taken"
     | _ =>
       match parseOp opT with
       | some op =>
@@ -211,7 +222,8 @@ def judge (_id : String) (lines : Array String) : Verdict := Id.run do
           | return (if obs == ["panic"] then .specfail "no-panic" l else .badop l)
         st := addBrs st (opBranches st op res)
         let (kv', mres) := step st.cfg st.kv op
-        match specStep st.m op res with
+        let hadBucket := st.kv.any (fun e => e.2 == .bucket)
+        match (if st.foreign then some (if res == none then (specApply st.m op).1 else st.m) else specStep st.m op res) with
         | none =>
           let (_, r) := specApply st.m op
           return classify st "operation-result" s!"{" ".intercalate opT}: spec {renderErr r} observed {renderErr res}" (res == mres) false
@@ -229,6 +241,8 @@ def judge (_id : String) (lines : Array String) : Verdict := Id.run do
             | _ => pure ()
           if (opBranches st op res).any (fun b => b == "idx-key-changed" || b.startsWith "fault-write-hit" || b == "fault-commit-hit") then
             st := { st with interesting := true }
+          if st.foreign && mres == some .other then st := addBr st "foreign-bucket-blocks-write"
+          if hadBucket && !(kv'.any (fun e => e.2 == .bucket)) then st := addBr st "foreign-bucket-deleted-by-store"
           st := { st with kv := kv', m := m', dumpValid := st.dumpValid && !committed,
                           maxStored := max st.maxStored m'.length }
           if !uniqueOK st.cfg st.m then st := { st with uniqViol := true }
